@@ -259,6 +259,11 @@ func (tw *TumblingWindow) Add(data any) {
 			// AllowedLateness == 0 (default) and not in the current window: drop
 			tw.dropLastRow()
 		}
+	} else if timeChar == types.EventTime && tw.currentSlot != nil && eventTime.Before(*tw.currentSlot.Start) {
+		// On-time row (not behind the watermark) that precedes the current slot:
+		// its window cannot have fired yet, so re-anchor the slot cursor on it.
+		// Otherwise the cursor only moves forward and the row is never emitted.
+		tw.currentSlot = tw.createSlotFromStart(alignWindowStart(eventTime, tw.size))
 	}
 
 }
